@@ -247,6 +247,8 @@ def seq_elem(I, st, v, ip=None, label=False):
         return hyperedge_template(t)
     if t[0] == "lmap":
         return thaw(t[2])
+    if t[0] == "filtermap" and len(t[2]) == 1 and isinstance(t[2][0], tuple) and t[2][0] and t[2][0][0] == "tup":
+        return thaw(t[2][0])        # the elements that were kept: the (tuple) payload of the Some answers
     if t[0] == "single":
         return thaw(t[1])
     if t[0] == "zip":
